@@ -166,7 +166,7 @@ class Ctx:
             self.second_solver['agree'] += 1
 
     # ------------------------------------------------------------------ replay
-    def replay_native(self, role, test_body, expect_marker='VERIF-REPLAY-VIOLATION', profiles=('dev', 'release'), uses=''):
+    def replay_native(self, role, test_body, expect_marker='VERIF-REPLAY-VIOLATION', profiles=('dev', 'release'), uses='', inject_into='src/lib.rs'):
         """Inject `test_body` (Rust items placed inside `#[cfg(test)] mod verif_replay`) into a scratch copy of
         the current /repo tree and run it. -> dict(reproduced=bool per profile, output tail)"""
         scratch = os.path.join(mirdump.SCRATCH_ROOT, f"replay-{self.pid}-{os.getpid()}")
@@ -174,7 +174,7 @@ class Ctx:
         res = {'role': role, 'profiles': {}}
         try:
             mirdump.copy_crate(scratch)
-            with open(os.path.join(scratch, 'src', 'lib.rs'), 'a') as f:
+            with open(os.path.join(scratch, inject_into), 'a') as f:
                 f.write("\n#[cfg(test)]\n#[allow(unused_imports, dead_code, unused_variables, unused_mut)]\nmod verif_replay {\n" + uses + "\n" + test_body + "\n}\n")
             for prof in profiles:
                 cmd = ['cargo', 'test', '--offline', '--no-default-features', '--lib', '--manifest-path', os.path.join(scratch, 'Cargo.toml'),
@@ -192,20 +192,33 @@ class Ctx:
                 if 'error[' in out or 'could not compile' in out:
                     res['profiles'][prof] = {'reproduced': False, 'compile_error': True, 'tail': out[-1500:]}
                 else:
-                    res['profiles'][prof] = {'reproduced': expect_marker in out, 'tail': '\n'.join(l for l in out.splitlines() if 'VERIF-REPLAY' in l or 'panicked' in l)[-1500:]}
+                    res['profiles'][prof] = {'reproduced': expect_marker in out, 'tail': '\n'.join(l for l in out.splitlines() if 'VERIF-REPLAY' in l or 'panicked' in l or l.startswith('step '))[-1500:]}
             self.replayed += 1
         finally:
             shutil.rmtree(scratch, ignore_errors=True)
         res['reproduced'] = any(v.get('reproduced') for v in res['profiles'].values())
         return res
 
-    def report(self, role, text, model_desc, test_body, uses='', profiles=('dev', 'release')):
-        """A solver counterexample: replay natively, then classify as known finding / violation / encoding disagreement."""
+    def report(self, role, text, model_desc, test_body, uses='', profiles=('dev', 'release'), inject_into='src/lib.rs', role_from_output=False):
+        """A solver counterexample: replay natively, then classify as known finding / violation / encoding disagreement.
+        With role_from_output the native test itself names the role (`VERIF-REPLAY-VIOLATION <role>`)."""
         for v in self.violations:
-            if v['role'] == role:   # one report per role and run
+            if v['role'] == role and not role_from_output:   # one report per role and run
                 v['count'] = v.get('count', 1) + 1
                 return v
-        rp = self.replay_native(role, test_body, uses=uses, profiles=profiles)
+        rp = self.replay_native(role, test_body, uses=uses, profiles=profiles, inject_into=inject_into)
+        if role_from_output and rp['reproduced']:
+            for prof in rp['profiles'].values():
+                mm = re.search(r'VERIF-REPLAY-VIOLATION (\S+)', prof.get('tail', ''))
+                if mm:
+                    role = mm.group(1)
+                    break
+            for v in self.violations:
+                if v['role'] == role:
+                    v['count'] = v.get('count', 1) + 1
+                    return v
+        if role is None:
+            role = f"unreproduced-{len(self.violations)}"
         os.makedirs(os.path.join(VERIF, 'replays'), exist_ok=True)
         path = os.path.join(VERIF, 'replays', f"{self.pid}_{re.sub(r'[^A-Za-z0-9_.-]', '_', role)}.json")
         json.dump({'property': self.pid, 'role': role, 'what': text, 'model': model_desc, 'rust_test': uses + "\n" + test_body, 'replay': rp}, open(path, 'w'), indent=1)
